@@ -59,6 +59,32 @@ def gen_spec(rng, n=None):
     return {"n": n, "positions": [list(p) for p in pts], "pulses": pulses}
 
 
+SPECIAL_PHASES = [0.0, math.pi, -math.pi, math.pi / 2, TWO_PI]
+ECHO_PATTERNS = [[0.0, math.pi], [0.0, math.pi, 0.0], [math.pi, 0.0, -math.pi], [0.0, math.pi / 2, math.pi],
+                 [TWO_PI, math.pi], [math.pi / 2, -math.pi, 0.0, math.pi]]
+
+
+def gen_echo_spec(rng, n=None):
+    """echo / Ramsey patterns: every pulse phase is an exact multiple of pi/2 (as floats: 0, pi, -pi, pi/2, 2 pi), at least
+    two different ones per sequence and at least one pi - the phases for which a 'real kernel' shortcut could apply"""
+    n = n or rng.choice([2, 3, 4])
+    spec = gen_spec(rng, n)
+    if rng.random() < 0.6:
+        phases = list(rng.choice(ECHO_PATTERNS))
+    else:
+        phases = [rng.choice(SPECIAL_PHASES) for _ in range(rng.randint(2, 4))]
+        phases[0], phases[1] = rng.choice([0.0, TWO_PI]), rng.choice([math.pi, -math.pi])
+    pulses = []
+    for ph in phases:
+        local = rng.random() < 0.2
+        pulses.append({"channel": "loc" if local else "glob", "target": rng.randrange(n) if local else None,
+                       "duration": rng.choice([52, 80, 100]), "shape": rng.choice(["const", "const", "blackman"]),
+                       "amp": rng.uniform(4.0, 9.0), "det0": rng.uniform(-4, 4), "det1": rng.uniform(-4, 4), "phase": ph})
+    spec["pulses"] = pulses
+    spec["family"] = "echo"
+    return spec
+
+
 def build(spec):
     import pulser
     from pulser.waveforms import BlackmanWaveform, ConstantWaveform, RampWaveform
@@ -297,8 +323,13 @@ def operator_case(rng):
     for i in range(n):
         for j in range(i):
             U[i, j] = U[j, i] = rng.uniform(0, 9) if rng.random() < 0.8 else 0.0
-    return {"n": n, "omega": [rng.uniform(0, 9) for _ in range(n)], "delta": [rng.uniform(-9, 9) for _ in range(n)],
-            "phi": [rng.uniform(-3, 3) for _ in range(n)], "U": U.tolist(), "c": rng.uniform(0.1, 6.0)}
+    if rng.random() < 0.4:   # exact multiples of pi (phase pi must not be treated as phase 0), at least one pi
+        phi = [rng.choice([0.0, math.pi, -math.pi, TWO_PI, 3 * math.pi]) for _ in range(n)]
+        phi[rng.randrange(n)] = rng.choice([math.pi, -math.pi])
+    else:
+        phi = [rng.uniform(-3, 3) for _ in range(n)]
+    return {"n": n, "omega": [rng.uniform(0.5, 9) for _ in range(n)], "delta": [rng.uniform(-9, 9) for _ in range(n)],
+            "phi": phi, "U": U.tolist(), "c": rng.uniform(0.1, 6.0)}
 
 
 def operator_check(c, dense):
@@ -357,6 +388,7 @@ def metamorphic_case(ctx, spec, kind, backend, seed):
 
 def judge(ctx, spec, kind, backend, seed, r):
     ctx.count_case({"kind": kind, "backend": backend, "n": spec["n"], "pulses": len(spec["pulses"]), "seed": seed,
+                    "family": spec.get("family", "random"), "phases": [p["phase"] for p in spec["pulses"]],
                     "info": r["info"]}, nontrivial=max(r["occ"]) > 1e-2)
     if r["text"]:
         what = (f"emu-{backend}: {r['text']} (phases negated)" if kind == "negate" else
@@ -405,8 +437,8 @@ def run(ctx):
     todo = []
     for spec, kind, backend, seed in corpus_cases():
         todo.append((spec, kind, backend, seed))
-    for i in range(ctx.n(5, 40)):
-        spec = gen_spec(ctx.rng)
+    bases = [gen_spec(ctx.rng) for _ in range(ctx.n(4, 36))] + [gen_echo_spec(ctx.rng) for _ in range(ctx.n(3, 16))]
+    for spec in bases:
         for kind in ("rigid", "offset", "timerev", "negate", "roundtrip"):
             for backend in ("sv", "mps"):
                 todo.append((spec, kind, backend, ctx.rng.randrange(10 ** 6)))
@@ -441,8 +473,9 @@ def run(ctx):
     ctx.extra["worst_energy_difference"] = worst_e
     ctx.rule = ("random pulser sequences on MockDevice (2-5 atoms at random planar positions >= 7.5 um apart, 2-4 pulses on a "
                 "global and optionally a local Rydberg channel, constant/Blackman/ramp amplitudes, ramped detunings, random "
-                "phases) x {rigid motion with optional reflection, constant phase offset, negated phases, abstract-repr round "
-                "trip} x {emu-sv, emu-mps}; plus random operator-level cases; non-trivial = some occupation > 1e-2.")
+                "phases; plus echo/Ramsey base sequences whose pulse phases are exact multiples of pi/2 from {0, pi, -pi, pi/2, "
+                "2 pi}, at least two different and at least one pi per sequence) x {rigid motion with optional reflection, constant phase offset, negated phases, abstract-repr round "
+                "trip} x {emu-sv, emu-mps}; plus random operator-level cases (40% with phase vectors made of exact multiples of pi); non-trivial = some occupation > 1e-2.")
     ctx.trusted_base += ["C06_H_apply_dense (emu-sv applies the dense Hamiltonian the theorems speak about); C05 for the MPO",
                          "pulser-core 1.9.1 for building, sampling and (de)serialising sequences"]
     ctx.assumptions += ["theorems are entrywise identities on the dense Hamiltonian; that the time stepper commutes with the "
